@@ -215,6 +215,27 @@ func (k c10) random(c *rt.Ctx) {
 			k.judgeField(c, gen.IndexI(l, int64(i)), numStore, "index", cell)
 		}
 		_ = numArg
+		if r.Chance(1, 2) {
+			// a list of texts (README: "the list type support int, str, float types")
+			words := []string{"a", "b", "zz", "it is", "x,y", "Key"}
+			m := r.Range(1, 4)
+			el := make([]*gen.Node, m)
+			for i := range el {
+				el[i] = gen.Str(words[r.Intn(len(words))])
+				if rowdep && r.Bool() {
+					el[i] = []*gen.Node{gen.Bin("+", gen.Str("p"), gen.Value()), gen.Call("upper", gen.Bin("+", gen.Str("k"), gen.Key())), gen.Bin("+", gen.Str("v:"), gen.Key())}[r.Intn(3)]
+				}
+			}
+			tl := gen.Call("list", el...)
+			tl.ET = gen.TS
+			k.judgeField(c, tl, numStore, "list", cell+"-texts")
+			k.judgeField(c, gen.Call("len", tl), numStore, "len", cell+"-texts")
+			for i := 0; i < m; i++ {
+				k.judgeField(c, gen.IndexI(tl, int64(i)), numStore, "index", cell+"-texts")
+			}
+			k.judgeWhere(c, gen.InExpr(gen.Str(words[r.Intn(len(words))]), tl), numStore, "list", cell+"-texts")
+			c.Rec.Inc("lists_of_texts")
+		}
 	case 1: // IN over list representations (WHERE outcome)
 		l := mkList(rowdep, r.Range(1, 4), false)
 		x := intArg(true)
@@ -234,6 +255,12 @@ func (k c10) random(c *rt.Ctx) {
 			// vector from split text / JSON array
 			k.judgeField(c, gen.Call(fn, gen.Call("split", gen.Str("1,2,3"), gen.Str(",")), mkList(false, 3, r.Bool())), numStore, fn, "const")
 			k.judgeField(c, gen.Call(fn, gen.IndexS(gen.Call("json", gen.Value()), "list"), mkList(false, 3, true)), c10JSONStore(), fn, "rowdep")
+			// a store in which every document has a numeric array of the right length (one
+			// document without it fails the whole statement and nothing is judged)
+			vecStore := []refstore.Pair{{K: "e0", V: `{"list":[1,2,3]}`}, {K: "e1", V: `{"list":[0.5,1.5,2.5]}`}, {K: "e2", V: `{"list":[7,0,-2]}`}, {K: "e3", V: `{"list":[0.25,0.25,4]}`}}
+			k.judgeField(c, gen.Call(fn, gen.IndexS(gen.Call("json", gen.Value()), "list"), mkList(false, 3, true)), vecStore, fn, "rowdep-json-array")
+			k.judgeField(c, gen.Call(fn, mkList(false, 3, r.Bool()), gen.IndexS(gen.Call("json", gen.Value()), "list")), vecStore, fn, "rowdep-json-array")
+			c.Rec.Inc("distances_over_json_arrays")
 		}
 	case 4: // JSON navigation
 		paths := [][]any{{"x"}, {"y"}, {"list", 0}, {"list", 1}, {"list", 2}, {"o", "y"}, {"o", "z", 1}, {"list"}, {"o"}}
